@@ -416,11 +416,42 @@ def r_decoder(rule, root=None):
         rule.ok("decoder: jump word 0xFFFFFFFF ends the tape, 0 starts it", file=TAPE, line=j["ln"])
     else:
         rule.bad("decoder|framing", "the OP_JUMP case must stop at immediate 0xFFFFFFFF and carry on at 0 (the encoder's start / end markers)", where)
+    # any other immediate is the index of the word to continue at: the loop variable takes it as it is
+    mj = re.search(r"else\{(?:[^{}]*?)(\w+)=([^;]+);continue;\}", jt) if j else None
+    imm_name = re.search(r"if\(?(\w+)==0xFFFFFFFFu?", jt)
+    if mj and imm_name and mj.group(2).strip("()") in (imm_name.group(1), "u32(%s)" % imm_name.group(1)):
+        rule.ok("decoder: any other jump word continues at exactly the word it names", file=TAPE, line=j["ln"])
+    elif mj and imm_name:
+        rule.bad("decoder|jump-target", "a mid-tape jump continues at `%s`; the link word holds the index of the next word to read, so it must be `%s` itself (an offset skips or repeats an instruction after every chunk link)" % (mj.group(2), imm_name.group(1)), where)
+    else:
+        rule.skip("decoder mid-tape jump", "the OP_JUMP case has no final `else { i = <immediate>; continue; }`", count=True)
     consts = {it["name"]: A.unparse(it["e"]).replace(" ", "") for it in d["_items"] if it.get("k") == "Const" and it.get("e") is not None}
     if consts.get("OP_JUMP") in ("0xFF", "255", "0xFFu", "255u"):
         rule.ok("decoder: OP_JUMP is the reserved opcode 0xFF", file=TAPE, line=1)
     else:
         rule.bad("decoder|jump-op", "OP_JUMP must be 0xFF (the marker words are u32::MAX, whose low byte is the opcode)", where)
+    # the host tells the shader which input slot each axis occupies; an axis the tape does not use must be a value no
+    # slot can equal (the shader compares every Input's slot with all three)
+    try:
+        rs = A.find_fn("fidget-wgpu/src/lib.rs", "new", self_ty="RenderShape", root=root)
+    except Exception:  # noqa: BLE001
+        rs = None
+    if rs is None:
+        rule.skip("RenderShape::new axes table", "function not found", count=True)
+    else:
+        ax = [l_ for l_ in A.find(rs["body"], "Let") if A.binding_name(l_["pat"]) == "axes" and l_.get("init") is not None]
+        t_ = A.unparse(ax[0]["init"]).replace(" ", "") if ax else ""
+        if not ax or "Var::X" not in t_:
+            rule.skip("RenderShape::new axes table", "no `let axes = [Var::X, Var::Y, Var::Z]..`", count=True)
+        else:
+            dflt = re.findall(r"\.(unwrap_or|map_or)\(([^,)]+)", t_) + [("unwrap_or_default", "0")] * t_.count("unwrap_or_default()") + [("unwrap_or_else", m_) for m_ in re.findall(r"unwrap_or_else\(\|\|([^)]+)\)", t_)]
+            vals = {v_ for _k, v_ in dflt}
+            if vals and vals <= {"u32::MAX", "u32::MAXasu32", "!0u32", "0xFFFFFFFF", "0xFFFF_FFFF", "usize::MAXasu32"}:
+                rule.ok("host: an axis the tape does not use is reported as u32::MAX, which no input slot equals", file="fidget-wgpu/src/lib.rs", line=ax[0]["ln"])
+            elif vals:
+                rule.bad("decoder|axes|absent", "RenderShape::new reports an axis the tape does not use as `%s`; that is a real input slot, so the shader feeds that axis' coordinate to whatever variable lives there (use a value no slot can equal: u32::MAX)" % sorted(vals)[0], "fidget-wgpu/src/lib.rs:%d" % ax[0]["ln"])
+            else:
+                rule.skip("RenderShape::new axes table", "the value for an absent axis is not a plain default", count=True)
     o = cases.get("OP_OUTPUT")
     ot = nb(A.unparse(o["body"]).replace(" ", "")) if o else ""
     if "out.value=reg[%s[1]]" % opv in ot:
